@@ -1,6 +1,7 @@
 package cfs
 
 import (
+	"time"
 	"crypto/sha256"
 	"encoding/hex"
 	"fmt"
@@ -43,6 +44,15 @@ type Case struct {
 	// NoModel: the case involves a name the host file system cannot hold (longer than 255 bytes); the abstract model
 	// knows no such limit, so only the model-free oracles (C02, C17) apply
 	NoModel bool `json:"no_model,omitempty"`
+	// MTimes: modification times (unix seconds) given to files of the initial tree after it has been materialised
+	// (after C01-s15 / C04-s14: the epoch and instants before it are ordinary modification times)
+	MTimes map[string]int64 `json:"mtimes,omitempty"`
+}
+
+func (e *env) setTimes(m map[string]int64) {
+	for p, v := range m {
+		os.Chtimes(filepath.Join(e.root, filepath.FromSlash(p)), time.Unix(v, 0), time.Unix(v, 0))
+	}
 }
 
 type env struct {
@@ -561,6 +571,59 @@ func TestLongNames(t *testing.T) {
 }
 
 // ---------------------------------------------------------------------------
+// files whose modification time is the Unix epoch, lies before it or far in the future (after C01-s15, C04-s14):
+// "zero" times of one layer or another must not make a date, a tag or the resource itself disappear
+
+func TestOldFiles(t *testing.T) {
+	if vev.ReplayFile() != "" {
+		t.Skip()
+	}
+	e := newEnv(t)
+	defer e.close()
+	s := vfs.NewDir()
+	s.Kids["a"] = vfs.NewFile("content of a")
+	s.Kids["b"] = vfs.NewFile("b")
+	d := vfs.NewDir()
+	d.Kids["k"] = vfs.NewFile("kept")
+	s.Kids["d"] = d
+	idx := 0
+	for _, mt := range []int64{0, -1, 1, -1000000000, -62135596800, 253402300799, 4102444800} {
+		times := map[string]int64{"/a": mt, "/d/k": mt}
+		var reqs []vfs.Req
+		for _, p := range []string{"/a", "/d/k", "/", "/d"} {
+			reqs = append(reqs, vfs.Req{Method: "GET", Path: p}, vfs.Req{Method: "HEAD", Path: p},
+				vfs.Req{Method: "PROPFIND", Path: p, Depth: "0", Body: pfAllprop, ContentType: "application/xml"},
+				vfs.Req{Method: "PROPFIND", Path: p, Depth: "1", Body: pfProp, ContentType: "text/xml"},
+				vfs.Req{Method: "PROPFIND", Path: p, Depth: "infinity"})
+		}
+		for _, p := range []string{"/a", "/d/k"} {
+			for _, cond := range [][2]string{{"", ""}, {"*", ""}, {"", "*"}, {vfs.CurTag, ""}, {"", vfs.CurTag}, {`"other"`, ""}, {"", `"other"`}, {vfs.CurTag, `"other"`}} {
+				reqs = append(reqs, vfs.Req{Method: "PUT", Path: p, Body: "replacement", IfMatch: cond[0], IfNoneMatch: cond[1]},
+					vfs.Req{Method: "DELETE", Path: p, IfMatch: cond[0], IfNoneMatch: cond[1]})
+			}
+			reqs = append(reqs, vfs.Req{Method: "COPY", Path: p, HasDest: true, Dest: "/copy"}, vfs.Req{Method: "MOVE", Path: p, HasDest: true, Dest: "/b"},
+				vfs.Req{Method: "COPY", Path: "/b", HasDest: true, Dest: EscapePath(p), Overwrite: "F"}, vfs.Req{Method: "COPY", Path: "/b", HasDest: true, Dest: EscapePath(p)})
+		}
+		for _, r := range reqs {
+			idx++
+			if !vev.MyShare(idx) {
+				continue
+			}
+			e.have = nil
+			os.RemoveAll(e.root)
+			e.set(s)
+			e.setTimes(times)
+			st, err := e.step(r)
+			if err != nil {
+				continue
+			}
+			report(t, Case{Tree: ToJ(s), Reqs: []vfs.Req{r}, MTimes: times}, e.judge(st, "T"))
+		}
+	}
+	rec01.ExhaustiveSub("files with modification time 0, -1, +1, -10^9, year 1, year 9999 and 2100 x GET/HEAD/PROPFIND (3 forms) x conditional PUT/DELETE (8 header combinations) x COPY/MOVE")
+}
+
+// ---------------------------------------------------------------------------
 // replay
 
 func runCase(t testing.TB, c Case) verdicts {
@@ -571,6 +634,7 @@ func runCase(t testing.TB, c Case) verdicts {
 		tree = vfs.NewDir()
 	}
 	e.set(tree)
+	e.setTimes(c.MTimes)
 	var last verdicts
 	for _, r := range c.Reqs {
 		if e.have == nil {
